@@ -1036,12 +1036,37 @@ impl Run {
     }
 }
 
+/// flag `keymismatch`: 1 iff the witness of the key-mismatch assert (corpus/C17/key-mismatch-panic.ops) no longer panics
+/// on the tree under test (the valid response under another key is refused instead)
+fn measure_key_mismatch(seed: u64, outdir: &str) -> u8 {
+    let mut rng = Rng::new(seed ^ 0xF1A6);
+    let mut w = World::new(&mut rng);
+    let mut sink = Out::new(&format!("{}/flagprobe", outdir));
+    let script = ["connect 0 2", "asign 2 1", "deliver 0 2 response 2 2 1 0 ok -", "deliver 0 2 challenge 0", "asign 3 2", "deliver 0 2 response 3 3 2 0 ok -"];
+    let mut last = String::new();
+    let mut hist: Vec<String> = vec![];
+    for line in script {
+        if let Some(op) = SOp::parse(line) {
+            let r = w.apply(&op, &mut sink, &hist);
+            last = r.answer.clone();
+            hist.push(r.line);
+        }
+    }
+    if last.starts_with("panic") {
+        0
+    } else {
+        1
+    }
+}
+
 /// replay of one script file in the request-line language on the real code: `harness hs-script <seed> <file> <outdir>`
 /// prints every request with the implementation's answer and the monitor's verdicts
 pub fn run_script(seed: u64, file: &str, outdir: &str) {
     let mut rng = Rng::new(seed);
     let w = World::new(&mut rng);
     let mut run = Run { w, out: Out::new(outdir), script: vec![], edges: 0, pruned: 0, cap_hit: false };
+    let km = measure_key_mismatch(seed, outdir);
+    run.out.setup(&format!("flags keymismatch={}", km));
     let txt = std::fs::read_to_string(file).unwrap_or_default();
     // a replay file written by ./check (JSON with input.script) or a plain .ops file
     let lines: Vec<String> = match serde_json::from_str::<serde_json::Value>(&txt) {
@@ -1089,6 +1114,9 @@ pub fn run(seed: u64, tier: &str, outdir: &str) {
     let w = World::new(&mut rng);
     let mut run = Run { w, out: Out::new(outdir), script: vec![], edges: 0, pruned: 0, cap_hit: false };
     let thorough = tier == "thorough";
+    let km = measure_key_mismatch(seed, outdir);
+    run.out.setup(&format!("flags keymismatch={}", km));
+    run.out.count(&format!("flags_measured keymismatch={}", km));
 
     // 1. corpus: witnesses and past disagreements
     run.corpus();
